@@ -139,7 +139,9 @@ def gen_image_spec(rng, dtypes=None, min_side=1, findings=True):
         vals = [rng.random() < 0.5 for _ in range(n)]
     else:
         vals = [rng.randint(0, 250) for _ in range(n)]
-    sp = rng.choice([[0.5, 0.5], [dy(rng, 0.0625, 2, 4), dy(rng, 0.0625, 2, 4)], [0.1, 0.3], [1, 1], [0.0851, 0.0851]])
+    sp = rng.choice([[0.5, 0.5], [dy(rng, 0.0625, 2, 4), dy(rng, 0.0625, 2, 4)], [0.1, 0.3], [1, 1], [0.0851, 0.0851],
+                     # the same pixel sizes with lengths in metres / millimetres, and a coarse one in nanometres
+                     [0.0851e-6, 0.0851e-6], [1.151e-7, 2.3e-7], [8.51e-5, 8.51e-5], [115.1, 85.1]])
     return dict(nx=nx, ny=ny, dtype=dtype, vals=vals, spacing=sp, z=rng.choice([0, 0, 0, 2.5, -1]),
                 name=rng.choice([None, "foo", "my holo 1", "hölo", "data", "a.b"]), labels=labels,
                 attrs=gen_attr_specs(rng, labels, findings))
